@@ -537,6 +537,8 @@ class Expander:
                                                       "dropped_self_methods_checked_clean": notes["dropped_calls_checked"],
                                                       "readonly_board_calls": notes["readonly_board_calls"],
                                                       "havoc_bindings": notes["havoc_bindings"]})
+        for d in notes.get("degraded", []):
+            self.records.setdefault("degraded", []).append(f"{relpath}: {d}")
         self.records["abstractions"].append(f"{relpath}: {impl_type}::{{{', '.join(names)}}} verified as a mechanical control-flow/board-mutation slice (conditions nondeterministic, move variables assumed to be generated moves of the current position)")
 
     def do_fragment(self, lineno, head, block):
@@ -711,109 +713,121 @@ class Expander:
             self.records["abstractions"].append(f"{relpath}:{name}: signature and contract only (assumed here; body verified elsewhere or trusted)")
         loops = self._loops(item) if is_fn and item.body_open is not None else []
         for d, d_line, payload in directives:
-            text = "\n".join(payload)
-            origin = ("tmpl", self.unit, d_line)
-            if d.startswith("//@contract-from "):
-                cpath = os.path.join(VERIF, d.split(None, 1)[1].strip())
-                try:
-                    text = open(cpath).read().rstrip("\n")
-                except OSError as e:
-                    raise ExtractError(f"{self.unit}:{d_line}: contract file: {e}")
-                origin = ("tmpl", os.path.relpath(cpath, VERIF), 1)
-                if body_rel is None:
-                    raise ExtractError(f"{self.unit}:{d_line}: contract on item without body")
-                ed.insert(body_rel, "\n" + text + "\n", origin)
-            elif d == "//@contract":
-                if body_rel is None:
-                    if is_fn and src.is_p(item.last, ";"):
-                        ed.insert(src.toks[item.last].s - ed.base, "\n" + text + "\n", origin)  # bodiless trait fn
-                    else:
+            try:
+                text = "\n".join(payload)
+                origin = ("tmpl", self.unit, d_line)
+                if d.startswith("//@contract-from "):
+                    cpath = os.path.join(VERIF, d.split(None, 1)[1].strip())
+                    try:
+                        text = open(cpath).read().rstrip("\n")
+                    except OSError as e:
+                        raise ExtractError(f"{self.unit}:{d_line}: contract file: {e}")
+                    origin = ("tmpl", os.path.relpath(cpath, VERIF), 1)
+                    if body_rel is None:
                         raise ExtractError(f"{self.unit}:{d_line}: contract on item without body")
-                else:
                     ed.insert(body_rel, "\n" + text + "\n", origin)
-            elif d.startswith("//@loop-end "):
-                n = int(d.split()[1])
-                if n < 1 or n > len(loops):
-                    raise ExtractError(f"{self.unit}:{d_line}: {relpath}:{name} has {len(loops)} loops, wanted #{n}")
-                # closing brace of the n-th loop body
-                open_off = loops[n - 1] + ed.base
-                k = 0
-                while src.toks[k].s != open_off:
-                    k += 1
-                ed.insert(src.toks[src.match[k]].s - ed.base, "\n" + text + "\n", origin)
-            elif d.startswith("//@loop "):
-                n = int(d.split()[1])
-                if n < 1 or n > len(loops):
-                    raise ExtractError(f"{self.unit}:{d_line}: {relpath}:{name} has {len(loops)} loops, wanted #{n}")
-                ed.insert(loops[n - 1], "\n" + text + "\n", origin)
-            elif d == "//@at-end":
-                if item.body_open is None:
-                    raise ExtractError(f"{self.unit}:{d_line}: at-end on item without body")
-                ed.insert(src.toks[src.match[item.body_open]].s - ed.base, "\n" + text + "\n", origin)
-            elif d == "//@at-start":
-                if item.body_open is None:
-                    raise ExtractError(f"{self.unit}:{d_line}: at-start on item without body")
-                ed.insert(src.toks[item.body_open].e - ed.base, "\n" + text + "\n", origin)
-            elif re.match(r"//@(before|after)-re(#\d+)? ", d):
-                which, rx = d.split(None, 1)
-                lo = body_rel if body_rel is not None else 0
-                nth = 1
-                if "#" in which:
-                    which, n = which.split("#")
-                    nth = int(n)
-                ms = list(re.finditer(rx.strip(), ed.text[lo:], flags=re.S))
-                if "#" not in d.split(None, 1)[0] and len(ms) != 1:
-                    raise ExtractError(f"{src.label}:{item.name}: {which} regex anchor matches {len(ms)} times: {rx.strip()!r}")
-                if len(ms) < nth:
-                    raise ExtractError(f"{src.label}:{item.name}: {which} regex anchor occurrence #{nth} not found: {rx.strip()!r}")
-                m = ms[nth - 1]
-                pos = lo + (m.end() if which.startswith("//@after") else m.start())
-                ed.insert(pos, "\n" + text + "\n", origin)
-            elif re.match(r"//@(before|after)(#\d+)? ", d):
-                which, anchor = d.split(None, 1)
-                anchor = anchor.strip()
-                lo = body_rel if body_rel is not None else 0
-                if "#" in which:
-                    which, nth = which.split("#")
-                    pos = ed.find_nth(anchor, which, int(nth), lo)
+                elif d == "//@contract":
+                    if body_rel is None:
+                        if is_fn and src.is_p(item.last, ";"):
+                            ed.insert(src.toks[item.last].s - ed.base, "\n" + text + "\n", origin)  # bodiless trait fn
+                        else:
+                            raise ExtractError(f"{self.unit}:{d_line}: contract on item without body")
+                    else:
+                        ed.insert(body_rel, "\n" + text + "\n", origin)
+                elif d.startswith("//@loop-end "):
+                    n = int(d.split()[1])
+                    if n < 1 or n > len(loops):
+                        raise ExtractError(f"{self.unit}:{d_line}: {relpath}:{name} has {len(loops)} loops, wanted #{n}")
+                    # closing brace of the n-th loop body
+                    open_off = loops[n - 1] + ed.base
+                    k = 0
+                    while src.toks[k].s != open_off:
+                        k += 1
+                    ed.insert(src.toks[src.match[k]].s - ed.base, "\n" + text + "\n", origin)
+                elif d.startswith("//@loop "):
+                    n = int(d.split()[1])
+                    if n < 1 or n > len(loops):
+                        raise ExtractError(f"{self.unit}:{d_line}: {relpath}:{name} has {len(loops)} loops, wanted #{n}")
+                    ed.insert(loops[n - 1], "\n" + text + "\n", origin)
+                elif d == "//@at-end":
+                    if item.body_open is None:
+                        raise ExtractError(f"{self.unit}:{d_line}: at-end on item without body")
+                    ed.insert(src.toks[src.match[item.body_open]].s - ed.base, "\n" + text + "\n", origin)
+                elif d == "//@at-start":
+                    if item.body_open is None:
+                        raise ExtractError(f"{self.unit}:{d_line}: at-start on item without body")
+                    ed.insert(src.toks[item.body_open].e - ed.base, "\n" + text + "\n", origin)
+                elif re.match(r"//@(before|after)-re(#\d+)? ", d):
+                    which, rx = d.split(None, 1)
+                    lo = body_rel if body_rel is not None else 0
+                    nth = 1
+                    if "#" in which:
+                        which, n = which.split("#")
+                        nth = int(n)
+                    ms = list(re.finditer(rx.strip(), ed.text[lo:], flags=re.S))
+                    if "#" not in d.split(None, 1)[0] and len(ms) != 1:
+                        raise ExtractError(f"{src.label}:{item.name}: {which} regex anchor matches {len(ms)} times: {rx.strip()!r}")
+                    if len(ms) < nth:
+                        raise ExtractError(f"{src.label}:{item.name}: {which} regex anchor occurrence #{nth} not found: {rx.strip()!r}")
+                    m = ms[nth - 1]
+                    pos = lo + (m.end() if which.startswith("//@after") else m.start())
+                    ed.insert(pos, "\n" + text + "\n", origin)
+                elif re.match(r"//@(before|after)(#\d+)? ", d):
+                    which, anchor = d.split(None, 1)
+                    anchor = anchor.strip()
+                    lo = body_rel if body_rel is not None else 0
+                    if "#" in which:
+                        which, nth = which.split("#")
+                        pos = ed.find_nth(anchor, which, int(nth), lo)
+                    else:
+                        pos = ed.find_unique(anchor, which, lo)
+                    if which == "//@after":
+                        pos += len(anchor)
+                    ed.insert(pos, "\n" + text + "\n", origin)
+                elif d.startswith("//@rewrite-re ") or d.startswith("//@abstract-re "):
+                    which, spec = d.split(None, 1)
+                    if "~~>" not in spec:
+                        raise ExtractError(f"{self.unit}:{d_line}: rewrite needs `regex ~~> new`")
+                    rx, new = [x.strip() for x in spec.split("~~>", 1)]
+                    lo = sig_end if body_rel is not None else 0
+                    ms = list(re.finditer(rx, ed.text[lo:], flags=re.S))
+                    if len(ms) != 1:
+                        raise ExtractError(f"{src.label}:{item.name}: {which} regex anchor matches {len(ms)} times: {rx!r}")
+                    m0 = ms[0]
+                    old_text = " ".join(m0.group(0).split())
+                    key = "rewrites" if which == "//@rewrite-re" else "abstractions"
+                    self.records[key].append(f"{relpath}:{name}: `{old_text}` -> `{new}`")
+                    ed.replace(lo + m0.start(), m0.end() - m0.start(), new, ("repo", src.label, src.line_of(ed.base + lo + m0.start())))
+                elif d.startswith("//@rewrite ") or d.startswith("//@abstract ") or d.startswith("//@sig "):
+                    which, spec = d.split(None, 1)
+                    if "~~>" not in spec:
+                        raise ExtractError(f"{self.unit}:{d_line}: rewrite needs `old ~~> new`")
+                    old, new = [x.strip() for x in spec.split("~~>", 1)]
+                    if which == "//@sig":
+                        pos = ed.find_unique(old, which, 0, sig_end)
+                        self.records["sig_rewrites"].append(f"{relpath}:{name}: `{old}` -> `{new}`")
+                    else:
+                        pos = ed.find_unique(old, which, sig_end if body_rel is not None else 0)
+                        key = "rewrites" if which == "//@rewrite" else "abstractions"
+                        self.records[key].append(f"{relpath}:{name}: `{old}` -> `{new}`")
+                    ed.replace(pos, len(old), new, ("repo", src.label, src.line_of(ed.base + pos)))
+                elif d.startswith("//@const-ensures"):
+                    pass  # handled by _exec_const
                 else:
-                    pos = ed.find_unique(anchor, which, lo)
-                if which == "//@after":
-                    pos += len(anchor)
-                ed.insert(pos, "\n" + text + "\n", origin)
-            elif d.startswith("//@rewrite-re ") or d.startswith("//@abstract-re "):
-                which, spec = d.split(None, 1)
-                if "~~>" not in spec:
-                    raise ExtractError(f"{self.unit}:{d_line}: rewrite needs `regex ~~> new`")
-                rx, new = [x.strip() for x in spec.split("~~>", 1)]
-                lo = sig_end if body_rel is not None else 0
-                ms = list(re.finditer(rx, ed.text[lo:], flags=re.S))
-                if len(ms) != 1:
-                    raise ExtractError(f"{src.label}:{item.name}: {which} regex anchor matches {len(ms)} times: {rx!r}")
-                m0 = ms[0]
-                old_text = " ".join(m0.group(0).split())
-                key = "rewrites" if which == "//@rewrite-re" else "abstractions"
-                self.records[key].append(f"{relpath}:{name}: `{old_text}` -> `{new}`")
-                ed.replace(lo + m0.start(), m0.end() - m0.start(), new, ("repo", src.label, src.line_of(ed.base + lo + m0.start())))
-            elif d.startswith("//@rewrite ") or d.startswith("//@abstract ") or d.startswith("//@sig "):
-                which, spec = d.split(None, 1)
-                if "~~>" not in spec:
-                    raise ExtractError(f"{self.unit}:{d_line}: rewrite needs `old ~~> new`")
-                old, new = [x.strip() for x in spec.split("~~>", 1)]
-                if which == "//@sig":
-                    pos = ed.find_unique(old, which, 0, sig_end)
-                    self.records["sig_rewrites"].append(f"{relpath}:{name}: `{old}` -> `{new}`")
+                    raise ExtractError(f"{self.unit}:{d_line}: unknown sub-directive {d!r}")
+            except ExtractError as ex:
+                # a lost body anchor (proof hint, loop invariant, rewrite) does not stop the run: the item is verified without it and
+                # the unit is marked DEGRADED (a failing obligation then needs a failing input on the real code to count)
+                if re.match(r"//@(before|after|loop|loop-end|rewrite|abstract|rewrite-re|abstract-re|at-start|at-end)\b", d) and "anchor" in str(ex) or "loops, wanted" in str(ex):
+                    self.records.setdefault("degraded", []).append(f"{relpath}:{name}: directive `{d[:80]}` not applied ({ex})")
                 else:
-                    pos = ed.find_unique(old, which, sig_end if body_rel is not None else 0)
-                    key = "rewrites" if which == "//@rewrite" else "abstractions"
-                    self.records[key].append(f"{relpath}:{name}: `{old}` -> `{new}`")
-                ed.replace(pos, len(old), new, ("repo", src.label, src.line_of(ed.base + pos)))
-            elif d.startswith("//@const-ensures"):
-                pass  # handled by _exec_const
-            else:
-                raise ExtractError(f"{self.unit}:{d_line}: unknown sub-directive {d!r}")
+                    raise
         self.records["takes"].append({"kind": kind, "file": relpath, "name": name,
                                       "lines": [src.line_of(item.start), src.line_of(item.end)]})
+        if kind == "method" and item.body_open is not None and "external-body" not in opts and "::" in name and " for " not in name:
+            body = "".join(c.text for c in ed.chunks() if c.origin[0] == "repo")   # the repository's text after the recorded rewrites
+            calls = set(re.findall(r"(?:\bself\s*\.\s*|\bSelf\s*::\s*)([a-z_][a-z_0-9]*)\s*\(", body))
+            self.records.setdefault("_method_calls", []).append((relpath, name.split("::")[0], sorted(calls)))
         self.emit_chunks(ed.chunks())
 
     def _exec_const(self, item, ed, directives, lineno, relpath, name):
@@ -892,7 +906,44 @@ class Expander:
             k += 1
         return res
 
+    def auto_stub_helpers(self):
+        """Methods of the same impl that a taken method calls but that the unit does not contain (a helper introduced by
+        a change): emitted as signature-only stubs WITHOUT a contract — any result, any final state of a `&mut self`
+        receiver.  That over-approximates the helper, so the unit is marked DEGRADED."""
+        text = "\n".join(l for l, _ in self.out)
+        defined = set(re.findall(r"\bfn\s+([A-Za-z_][A-Za-z_0-9]*)", text))
+        stubs = {}   # impl header -> [lines]
+        done = set()
+        for relpath, tname, calls in self.records.get("_method_calls", []):
+            src = load(relpath)
+            for it in src.items:
+                if it.kind != "impl" or impl_self_type(it.header)[0] is not None or impl_self_type(it.header)[1] != tname:
+                    continue
+                for ch in it.children:
+                    if ch.kind == "fn" and ch.name in calls and ch.name not in defined and (tname, ch.name) not in done and ch.body_open is not None:
+                        done.add((tname, ch.name))
+                        sig = src.text[src.toks[ch.core].s:src.toks[ch.body_open].s].strip()
+                        hdr = " ".join(it.header.split())
+                        stubs.setdefault(hdr, []).append((f"    #[verifier::external_body] {sig} {{ unimplemented!() }}", relpath, src.line_of(ch.start)))
+                        self.records.setdefault("degraded", []).append(f"{relpath}: {tname}::{ch.name} is called by code under contract but has no contract in this unit (new helper?): modelled as returning anything / changing its `&mut` receiver arbitrarily")
+        if not stubs:
+            return
+        # insert before the closing brace of the verus! block (the last `}` line before `fn main`)
+        idx = max(i for i, (l, _) in enumerate(self.out) if l.strip().startswith("fn main"))
+        j = idx - 1
+        while j >= 0 and self.out[j][0].strip() != "}":
+            j -= 1
+        ins = []
+        for hdr, ls in stubs.items():
+            ins.append((hdr + " {", ("tmpl", self.unit, 0)))
+            for l, rp, ln in ls:
+                ins.append((l, ("repo", rp, ln)))
+            ins.append(("}", ("tmpl", self.unit, 0)))
+        self.out[j:j] = ins
+
     def result(self):
+        self.auto_stub_helpers()
+        self.records.pop("_method_calls", None)
         text = "\n".join(l for l, _ in self.out) + "\n"
         linemap = [o for _, o in self.out]
         rec = dict(self.records)
